@@ -686,9 +686,22 @@ class Models(object):
         return mk("collect", it)
 
     # default values ---------------------------------------------------------------------
-    def default_of(self, ev, prog, tid):
+    def default_of(self, ev, prog, tid, genv=None):
         t = prog.types[tid]
         k = t["k"]
+        if k == "param" and genv:
+            # a type parameter of a generic helper, bound in this instantiation
+            key = genv.get(t["n"])
+            if isinstance(key, str):
+                if key in ("f32", "f64", "usize", "isize", "i32", "u32", "i64", "u64", "u8", "i8", "u16", "i16"):
+                    return tm.ZERO
+                if key == "bool":
+                    return tm.FALSE
+                r = ev.resolve_trait_method("std::default::Default", "default", key)
+                if r is not None:
+                    body = ev.prog.body(r[0])
+                    if body is not None:
+                        return ev.call_body(ev.prog.owner_program(r[0]), body, [], genv=r[1])
         if k == "prim":
             n = t["n"]
             if n == "bool":
